@@ -32,6 +32,7 @@ import (
 	"github.com/gopherjs/gopherjs/compiler"
 	"github.com/gopherjs/gopherjs/compiler/errlist"
 	"github.com/gopherjs/gopherjs/compiler/linkname"
+	"github.com/gopherjs/gopherjs/compiler/sources"
 
 	"gvh/internal/gojs"
 )
@@ -44,6 +45,7 @@ type job struct {
 	Native   bool              `json:"native"`
 	Timeout  float64           `json:"timeout"`
 	KeepJS   bool              `json:"keep_js"`
+	FileArgs [][]string        `json:"file_args"` // main package built from explicit file lists (`gopherjs build a.go c.go b.go`), one run "args<i>" per list
 }
 
 type runOut struct {
@@ -125,6 +127,28 @@ func compile(dir string, minify bool) (b *built, err error) {
 		return nil, err
 	}
 	return &built{archives: deps, js: buf.Bytes()}, nil
+}
+
+// compileFiles is `gopherjs build f1.go f2.go …`: the real Session.BuildFiles with the files in the given order.
+func compileFiles(dir string, names []string, out string) (js []byte, err error) {
+	gojs.Init()
+	defer func() {
+		if r := recover(); r != nil {
+			err = fmt.Errorf("compiler panic: %v", r)
+		}
+	}()
+	s, err := build.NewSession(&build.Options{NoCache: true})
+	if err != nil {
+		return nil, err
+	}
+	paths := make([]string, len(names))
+	for i, n := range names {
+		paths[i] = filepath.Join(dir, n)
+	}
+	if err := s.BuildFiles(paths, out, dir); err != nil {
+		return nil, err
+	}
+	return os.ReadFile(out)
 }
 
 var (
@@ -294,6 +318,21 @@ func runJob(j job, scratch string) (res result) {
 			ro.JS = string(b.js)
 		}
 		res.Runs[v] = ro
+	}
+	for i, names := range j.FileArgs {
+		v := fmt.Sprintf("args%d", i)
+		jsPath := filepath.Join(dir, "out_"+v+".js")
+		if _, err := compileFiles(dir, names, jsPath); err != nil {
+			res.Runs[v] = runOut{Err: err.Error(), Class: "compile-error"}
+			continue
+		}
+		r := gojs.RunNode(jsPath, to)
+		if r.TimedOut {
+			r = gojs.RunNode(jsPath, 3*to)
+		}
+		os.Remove(jsPath)
+		os.Remove(jsPath + ".map")
+		res.Runs[v] = runOut{Stdout: clip(r.Stdout), Stderr: clip(r.Stderr), Class: r.Class(), Exit: r.Exit}
 	}
 	if j.Native {
 		bin := filepath.Join(dir, "native.bin")
@@ -480,6 +519,49 @@ func cmdSym() int {
 	return 0
 }
 
+// cmdSort: one line = file names separated by commas ("-" = none), in the order the files are handed to the compiler.
+// Builds a sources.Sources with one parsed file per name and calls the REAL Sources.Sort; answers the resulting order.
+func cmdSort() int {
+	sc := bufio.NewScanner(os.Stdin)
+	sc.Buffer(make([]byte, 1<<20), 1<<26)
+	w := bufio.NewWriter(os.Stdout)
+	defer w.Flush()
+	for sc.Scan() {
+		line := strings.TrimSpace(sc.Text())
+		var names []string
+		if line != "-" && line != "" {
+			names = strings.Split(line, ",")
+		}
+		ans := func() (ans string) {
+			defer func() {
+				if r := recover(); r != nil {
+					ans = fmt.Sprintf("panic:%v", r)
+				}
+			}()
+			fset := token.NewFileSet()
+			srcs := &sources.Sources{ImportPath: "p", FileSet: fset}
+			for _, n := range names {
+				f, err := parser.ParseFile(fset, n, "package p\n", 0)
+				if err != nil {
+					return "parse-error:" + err.Error()
+				}
+				srcs.Files = append(srcs.Files, f)
+			}
+			srcs.Sort()
+			out := make([]string, len(srcs.Files))
+			for i, f := range srcs.Files {
+				out[i] = fset.File(f.Pos()).Name()
+			}
+			if len(out) == 0 {
+				return "-"
+			}
+			return strings.Join(out, ",")
+		}()
+		fmt.Fprintln(w, ans)
+	}
+	return 0
+}
+
 func main() {
 	if len(os.Args) < 2 {
 		fmt.Fprintln(os.Stderr, "usage: gvh_c10 prog|linkname|sym")
@@ -492,6 +574,8 @@ func main() {
 		os.Exit(cmdLinkname())
 	case "sym":
 		os.Exit(cmdSym())
+	case "sort":
+		os.Exit(cmdSort())
 	}
 	fmt.Fprintln(os.Stderr, "gvh_c10: unknown command")
 	os.Exit(2)
